@@ -797,6 +797,167 @@ class optimize_idempotent_untrimmed(optimize_idempotent_rw):
                 yield {"entry": name, "tier": tier}
 
 
+def _drift_ops():
+    import numpy as np
+    import dask_array as da
+    swv = np.lib.stride_tricks.sliding_window_view
+    ops = {
+        "cumsum": (lambda r: da.cumsum(r, axis=0), lambda a: np.cumsum(a, axis=0)),
+        "cumprod": (lambda r: da.cumprod(r / 10, axis=0), lambda a: np.cumprod(a / 10, axis=0)),
+        "cumsum-blelloch": (lambda r: da.cumsum(r, axis=0, method="blelloch"), lambda a: np.cumsum(a, axis=0)),
+        "diff": (lambda r: da.diff(r, axis=0), lambda a: np.diff(a, axis=0)),
+        "diff2": (lambda r: da.diff(r, n=2, axis=0), lambda a: np.diff(a, n=2, axis=0)),
+        "flip": (lambda r: da.flip(r, 0), lambda a: np.flip(a, 0)),
+        "roll": (lambda r: da.roll(r, 2, axis=0), lambda a: np.roll(a, 2, axis=0)),
+        "repeat": (lambda r: da.repeat(r, 2, axis=0), lambda a: np.repeat(a, 2, axis=0)),
+        "tile": (lambda r: da.tile(r, 2), lambda a: np.tile(a, 2)),
+        "pad-edge": (lambda r: da.pad(r, [(1, 2)] + [(0, 0)] * (r.ndim - 1), mode="edge"), lambda a: np.pad(a, [(1, 2)] + [(0, 0)] * (a.ndim - 1), mode="edge")),
+        "pad-reflect": (lambda r: da.pad(r, [(2, 1)] + [(0, 0)] * (r.ndim - 1), mode="reflect"), lambda a: np.pad(a, [(2, 1)] + [(0, 0)] * (a.ndim - 1), mode="reflect")),
+        "topk": (lambda r: da.topk(r, 3, axis=0), lambda a: np.flip(np.sort(a, axis=0), axis=0)[:3]),
+        "argtopk": (lambda r: da.take_along_axis(r, da.argtopk(r, 3, axis=0), axis=0) if hasattr(da, "take_along_axis") else da.topk(r, 3, axis=0), lambda a: np.flip(np.sort(a, axis=0), axis=0)[:3]),
+        "percentile": (lambda r: da.percentile(r.ravel(), [50]) * 0 + 1, lambda a: np.ones(1)),
+        "histogram": (lambda r: da.histogram(r, bins=4, range=(0, 40))[0], lambda a: np.histogram(a, bins=4, range=(0, 40))[0]),
+        "digitize": (lambda r: da.digitize(r, np.array([5.0, 10.0, 20.0])), lambda a: np.digitize(a, np.array([5.0, 10.0, 20.0]))),
+        "isin": (lambda r: da.isin(r, [6.0, 9.0, 12.0]), lambda a: np.isin(a, [6.0, 9.0, 12.0])),
+        "where": (lambda r: da.where(r > 10, r, -r), lambda a: np.where(a > 10, a, -a)),
+        "nonzero-count": (lambda r: da.count_nonzero(r > 10), lambda a: np.count_nonzero(a > 10)),
+        "mask-select": (lambda r: r[r > 10], lambda a: a[a > 10]),
+        "mask-setitem": (lambda r: _setmask(r), lambda a: np.where(a > 10, 0.0, a)),
+        "take": (lambda r: da.take(r, [3, 0, 5], axis=0), lambda a: np.take(a, [3, 0, 5], axis=0)),
+        "int-dask-index": (lambda r: r[da.from_array(np.array([3, 0, 5]), chunks=2)], lambda a: a[[3, 0, 5]]),
+        "vindex": (lambda r: r.vindex[[3, 0, 5]], lambda a: a[[3, 0, 5]]),
+        "blocks-last": (lambda r: r.blocks[-1], lambda a: None),
+        "slice-step": (lambda r: r[1::3], lambda a: a[1::3]),
+        "clip-round": (lambda r: da.round(da.clip(r / 3, 1, 9), 1), lambda a: np.round(np.clip(a / 3, 1, 9), 1)),
+        "outer": (lambda r: da.outer(r.ravel()[:4], r.ravel()[:3]), lambda a: np.outer(a.ravel()[:4], a.ravel()[:3])),
+        "dot-self": (lambda r: da.dot(r.ravel(), r.ravel()), lambda a: np.dot(a.ravel(), a.ravel())),
+        "tensordot-T": (lambda r: da.tensordot(r.reshape(r.shape[0], -1), r.reshape(r.shape[0], -1).T, axes=1), lambda a: np.tensordot(a.reshape(a.shape[0], -1), a.reshape(a.shape[0], -1).T, axes=1)),
+        "einsum": (lambda r: da.einsum("i...,i...->...", r, r), lambda a: np.einsum("i...,i...->...", a, a)),
+        "concatenate": (lambda r: da.concatenate([r, r[:2]]), lambda a: np.concatenate([a, a[:2]])),
+        "stack": (lambda r: da.stack([r, r * 2], axis=1), lambda a: np.stack([a, a * 2], axis=1)),
+        "block": (lambda r: da.block([r, r]) if r.ndim == 1 else da.block([[r], [r]]), lambda a: np.block([a, a]) if a.ndim == 1 else np.block([[a], [a]])),
+        "reshape": (lambda r: r.reshape(-1, 1), lambda a: a.reshape(-1, 1)),
+        "ravel-T": (lambda r: r.T.ravel(), lambda a: a.T.ravel()),
+        "expand-squeeze": (lambda r: da.squeeze(da.expand_dims(r, 1), axis=1), lambda a: a),
+        "moveaxis": (lambda r: da.moveaxis(da.stack([r, r]), 0, -1), lambda a: np.moveaxis(np.stack([a, a]), 0, -1)),
+        "coarsen": (lambda r: da.coarsen(np.sum, r, {0: 2}, trim_excess=True), lambda a: a[: a.shape[0] // 2 * 2].reshape((a.shape[0] // 2, 2) + a.shape[1:]).sum(axis=1)),
+        "map_overlap": (lambda r: r.map_overlap(lambda b: b + 1, depth={0: 1}, boundary="reflect"), lambda a: a + 1),
+        "map_overlap-diff": (lambda r: r.map_overlap(lambda b: b - np.roll(b, 1, axis=0), depth={0: 1}, boundary="periodic"), lambda a: a - np.roll(a, 1, axis=0)),
+        "map_blocks-info": (lambda r: r.map_blocks(_block_start, dtype="f8"), lambda a: np.arange(a.shape[0]).reshape((-1,) + (1,) * (a.ndim - 1)) * np.ones(a.shape)),
+        "apply_along_axis": (lambda r: da.apply_along_axis(np.cumsum, 0, r, dtype=r.dtype, shape=(r.shape[0],)), lambda a: np.apply_along_axis(np.cumsum, 0, a)),
+        "apply_gufunc": (lambda r: da.apply_gufunc(lambda t: t.sum(axis=-1), "(i)->()", r.T if r.ndim > 1 else r, output_dtypes=float, allow_rechunk=True), lambda a: (a.T if a.ndim > 1 else a).sum(axis=-1)),
+        "sum-split2": (lambda r: r.sum(axis=0, split_every=2), lambda a: a.sum(axis=0)),
+        "var": (lambda r: r.var(axis=0), lambda a: a.var(axis=0)),
+        "argmax": (lambda r: da.argmax(r, axis=0), lambda a: np.argmax(a, axis=0)),
+        "nanargmin": (lambda r: da.nanargmin(r, axis=0), lambda a: np.nanargmin(a, axis=0)),
+        "cov": (lambda r: da.cov(da.stack([r.ravel(), r.ravel() ** 2])), lambda a: np.cov(np.stack([a.ravel(), a.ravel() ** 2]))),
+        "average-weights": (lambda r: da.average(r, axis=0, weights=da.from_array(np.arange(1.0, r.shape[0] + 1), chunks=4)), lambda a: np.average(a, axis=0, weights=np.arange(1.0, a.shape[0] + 1))),
+        "ptp": (lambda r: da.ptp(r, axis=0), lambda a: np.ptp(a, axis=0)),
+        "gradient": (lambda r: da.gradient(r, axis=0), lambda a: np.gradient(a, axis=0)),
+        "insert": (lambda r: da.insert(r, [1, 4], -1.0, axis=0), lambda a: np.insert(a, [1, 4], -1.0, axis=0)),
+        "delete": (lambda r: da.delete(r, [1, 4], axis=0), lambda a: np.delete(a, [1, 4], axis=0)),
+        "append": (lambda r: da.append(r, r[:2], axis=0), lambda a: np.append(a, a[:2], axis=0)),
+        "broadcast_to": (lambda r: da.broadcast_to(r, (2,) + r.shape), lambda a: np.broadcast_to(a, (2,) + a.shape)),
+        "rechunk-slice": (lambda r: r.rechunk({0: 5})[2:9], lambda a: a[2:9]),
+        "store-load": (lambda r: _store_roundtrip(r), lambda a: a),
+        "to_delayed": (lambda r: _from_delayed_blocks(r), lambda a: a),
+        "unify-with-known": (lambda r: r + da.from_array(np.arange(float(r.shape[0])).reshape((-1,) + (1,) * (r.ndim - 1)), chunks=5), lambda a: a + np.arange(float(a.shape[0])).reshape((-1,) + (1,) * (a.ndim - 1))),
+    }
+    return ops
+
+
+def _setmask(r):
+    r = r + 0
+    r[r > 10] = 0.0
+    return r
+
+
+def _block_start(b, block_info=None):
+    import numpy as np
+    lo, hi = block_info[0]["array-location"][0]
+    out = np.empty(b.shape)
+    out[...] = np.arange(lo, hi).reshape((-1,) + (1,) * (b.ndim - 1))
+    return out
+
+
+def _store_roundtrip(r):
+    import numpy as np
+    import dask_array as da
+    tgt = np.zeros(r.shape)
+    da.store(r, tgt)
+    return da.from_array(tgt, chunks=4)
+
+
+def _from_delayed_blocks(r):
+    import numpy as np
+    import dask
+    import dask_array as da
+    blocks = dask.compute(*list(np.ravel(r.to_delayed())))
+    flat = [np.asarray(b) for b in blocks]
+    ok = tuple(b.shape for b in flat) == tuple(tuple(c[i] for c, i in zip(r.chunks, idx)) for idx in np.ndindex(*r.numblocks))
+    return da.from_array(np.concatenate(flat, axis=0) if r.ndim == 1 and ok else (np.zeros(r.shape) if not ok else np.block(_nest(flat, r.numblocks))), chunks=4)
+
+
+def _nest(flat, nb):
+    if len(nb) == 1:
+        return list(flat)
+    n = len(flat) // nb[0]
+    return [_nest(flat[i * n:(i + 1) * n], nb[1:]) for i in range(nb[0])]
+
+
+@contract("dask_array/_expr.py::ChunksFreeze.lower_once", spec="routines-on-a-layout-drifting-input", props=["C03", "C02", "C20"])
+class routines_on_drifting_input:
+    """a routine applied to an array whose optimised layout differs from its advertised one (a native sliding-window
+    reduction over single-element blocks) computes NumPy's result with the advertised shape and dtype: every routine that
+    bakes a literal of its input's layout into its graph (offsets, chunk tuples, block counts) has to pin that layout"""
+    bounded_only = True
+    params = {"op": "const", "rank": "const"}
+    scope = "60 routines; a 1-D drifting input of length 12 and a 2-D one of shape 12x3 (window 3 over blocks of 1 element)"
+
+    def real():
+        return lambda: None
+
+    def call(fn, op, rank):
+        import numpy as np
+        import dask_array as da
+        swv = np.lib.stride_tricks.sliding_window_view
+        if rank == 1:
+            v = np.arange(14.0) * 5 % 9 + 1
+            r = da.sliding_window_view(da.from_array(v, chunks=1), 3).sum(-1)
+            a = swv(v, 3).sum(-1)
+        else:
+            v = (np.arange(42.0) * 5 % 9 + 1).reshape(14, 3)
+            r = da.sliding_window_view(da.from_array(v, chunks=(1, 3)), 3, axis=0).sum(-1)
+            a = swv(v, 3, axis=0).sum(-1)
+        f, g = _drift_ops()[op]
+        import warnings
+        with warnings.catch_warnings():
+            warnings.simplefilter("ignore")
+            y = f(r)
+            want = g(a)
+            got = np.asarray(y.compute())
+        return got, want, tuple(y.shape), str(y.dtype)
+
+    def requires(op, rank):
+        return True
+
+    def ensures(result, op, rank):
+        import math
+        import numpy as np
+        got, want, shape, dtype = result
+        r = {"advertised-dtype-is-computed-dtype": str(got.dtype) == dtype}
+        if not any(isinstance(s, float) and math.isnan(s) for s in shape):
+            r["advertised-shape-is-computed-shape"] = tuple(got.shape) == tuple(shape)
+        if want is not None:
+            r["equals-numpy"] = np.shape(got) == np.shape(want) and bool(np.allclose(got, want, equal_nan=True))
+        return r
+
+    def domain(tier, rng):
+        for op in _drift_ops():
+            for rank in (1, 2):
+                yield {"op": op, "rank": rank}
+
+
 @contract("dask_array/manipulation/_squeeze.py::squeeze", spec="unknown-axis", props=["C28"])
 class squeeze_unknown_axis:
     """squeeze() without an axis on an array with an unknown-length axis gives NumPy's shape or refuses (known finding F45:
